@@ -27,7 +27,7 @@ def run(repo, tier) -> Result:
     from ..driver import check_append_order, check_merge_callers
 
     check_merge_callers("C03", res, repo)
-    check_append_order("C03", res, repo, parts=("manager",))
+    check_append_order("C03", res, repo, parts=("manager", "hexital"))
     # Hexital.candles(timeframe): a new timeframe manager must collapse its own deep copy of the base candles
     from .c08 import check_binding
 
